@@ -59,6 +59,17 @@ class Gw:
 
     async def send_data(self, data):
         self.w.log.append(("S", bytes(data)))
+        # what the wire says: the request's own sequence number and frame ID (independent header reader)
+        d = bytes(data)
+        try:
+            if self.w.version < 5:
+                self.w.wire_req[d[0]] = d[2]
+            elif self.w.version < 8:
+                self.w.wire_req[d[0]] = d[4]
+            else:
+                self.w.wire_req[d[0]] = d[3] | d[4] << 8
+        except IndexError:
+            pass
         self.pending = asyncio.get_running_loop().create_future()
         try:
             await self.pending
@@ -72,6 +83,7 @@ class World:
         import bellows.ezsp.protocol as proto
 
         self.version = version
+        self.wire_req = {}
         self.loop = vloop.VLoop().install()
         self.log = []
         self.e = ezsp.EZSP({"path": "/dev/null"})
@@ -201,10 +213,11 @@ def run_script(rng, version, seq0, script):
                 _, which, variant = st
                 cur = (w.h._seq - 1) % 256
                 seqno = {"cur": cur, "prev": (cur - 1) % 256, "next": (cur + 1) % 256, "old": (cur - 2) % 256}.get(which, cur)
+                # the NCP answers the request it received: the one that went out under this sequence number
                 holder_name = None
-                for sq, (cid, _, _) in w.h._awaiting.items():
-                    if sq == seqno:
-                        holder_name = next(n for n, i in w.ids.items() if i == cid)
+                # (only while some call is still waiting under that number - taken modulo 256, the number is one byte on the wire)
+                if seqno in w.wire_req and any(k % 256 == seqno for k in w.h._awaiting):
+                    holder_name = next((n for n, i in w.ids.items() if i == w.wire_req[seqno]), None)
                 if variant == "cb":
                     name = CALLBACK
                 elif variant == "invalid":
